@@ -19,6 +19,20 @@ pub fn run(which: &str) {
                 Err(p) => println!("sortpairs-oob: PANIC({})", sanitize(&p)),
             }
         }
+        "bfsorder-fused" => {
+            // BfsOrder implements FusedIterator: next() after None must return None again
+            let g = webgraph::graphs::vec_graph::VecGraph::from_arcs([(0usize, 1usize), (1, 2)]);
+            let mut visit = webgraph::visits::breadth_first::Seq::new(&g);
+            let mut it = (&mut visit).into_iter();
+            let mut k = 0;
+            while it.next().is_some() { k += 1; }
+            let r = catch(std::panic::AssertUnwindSafe(|| it.next().is_none()));
+            match r {
+                Ok(true) => println!("bfsorder-fused: {k} items, then None, then None (correct)"),
+                Ok(false) => println!("bfsorder-fused: {k} items, then None, then Some (wrong)"),
+                Err(p) => println!("bfsorder-fused: {k} items, then None, then PANIC({})", sanitize(&p)),
+            }
+        }
         _ => println!("unknown probe"),
     }
 }
